@@ -17,10 +17,25 @@ AUTH_TB = ["models Model/CipherList.lean, Model/Auth.lean of service/cipher_list
            "cryptography is a contract: which keys open a stream and which salts carry a server mark come from an independent spec-level implementation in the harness",
            "Gen/Wiring.lean, Gen/Consts.lean, Gen/Ciphers.lean regenerated from source"]
 
+LOCK_TB = ["Gen/LockFacts.lean: typed lock-set / lock-order / critical-section analysis of the working tree (extract/locks.go, go/packages); the extractor is trusted and cross-checked by the concurrent campaigns",
+           "generic theorems Model/Locks.lean (ranked acquisition never deadlocks), Go memory model (mutex release/acquire) as contract"]
+
 CHECKS = {
+    "C13": dict(
+        level="proof",
+        campaigns=[dict(engine="lockstress", n=n(60, 1500), netns=True)],
+        trusted_base=LOCK_TB,
+        assumptions=["threads are the listen/close calls of the manager API; their lock programs are the generated ones"],
+    ),
+    "C19": dict(
+        level="proof",
+        campaigns=[dict(engine="conc", n=n(20, 400), race=True), dict(engine="lockstress", n=n(40, 800), netns=True, race=True)],
+        trusted_base=LOCK_TB,
+        assumptions=["a field classified immutable/guarded in Props/C19.lean is shared; fields confined to one goroutine (natconn.readDeadline, tcpConnMetrics.accessKey, ProxyMetrics) are outside the claim and only watched by the race detector"],
+    ),
     "C01": dict(
         level="proof",
-        campaigns=[dict(engine="tcpauth", n=n(600, 12000))],
+        campaigns=[dict(engine="tcpauth", n=n(600, 12000)), dict(engine="conc", n=n(15, 300))],
         trusted_base=AUTH_TB,
         assumptions=["KeySeparation (a stream sealed under one (cipher, secret) opens under no other) is an explicit hypothesis where attribution to 'exactly that key' is claimed",
                      "each cipherList method is one critical section (C19 lock-set facts), so concurrent use is an interleaving of the modelled ops"],
@@ -63,7 +78,8 @@ CHECKS = {
     ),
     "C07": dict(
         level="proof",
-        campaigns=[dict(engine="replay", n=n(1500, 30000), args={"ops": 200}), dict(engine="tcpauth", n=n(400, 8000))],
+        campaigns=[dict(engine="replay", n=n(1500, 30000), args={"ops": 200}), dict(engine="tcpauth", n=n(400, 8000)),
+                   dict(engine="conc", n=n(15, 300))],
         trusted_base=["model Model/Replay.lean of service/replay.go tied by the `replay` differential campaign",
                       "Gen/Consts.lean (MaxCapacity) regenerated from source"],
         assumptions=["ReplayCache.Add/Resize are each one critical section (C19 lock-set facts)",
